@@ -11,6 +11,20 @@ DSITE = "metrics.comparable_metric"
 SCALE = 1000000
 
 
+class FirstFitModel(BaseEstimator, RegressorMixin):
+    """a linear model that, like a warm-started ensemble asked for no additional member, learns at its FIRST fit only:
+    further fits of the same object change nothing.  Every clone learns the identity; an object reused across pairs
+    keeps answering with what it learnt first."""
+
+    def fit(self, X, y):
+        if not hasattr(self, "m_"):
+            self.m_ = LinearRegression().fit(X, y)
+        return self
+
+    def predict(self, X):
+        return self.m_.predict(X)
+
+
 class ConstModel(BaseEstimator, RegressorMixin):
     def fit(self, X, y):
         self.c_ = float(numpy.mean(y))
@@ -131,7 +145,12 @@ def dispatch_trace(tid, trn, invn, rng):
         y2, p2 = numpy.column_stack([y, y[::-1]]), numpy.column_stack([p, p[::-1] * 2])
         a3 = r2_score_comparable(y2, p2, tr=table[trn], inv_tr=table[invn])
         b3 = r2_score(fun["id" if trn == "None" else trn](y2), fun["id" if invn == "None" else invn](p2))
-        r2_equal = bool(a == b and a2 == b2 and a3 == b3)
+        # a constant (transformed) target: whatever r2_score answers there, the comparable score is the same
+        yc = numpy.full(y.shape, float(y[1]))
+        a4 = r2_score_comparable(yc, p, tr=table[trn], inv_tr=table[invn])
+        b4 = r2_score(fun["id" if trn == "None" else trn](yc), fun["id" if invn == "None" else invn](p))
+        same = lambda u, v: bool(u == v or (u != u and v != v))
+        r2_equal = bool(a == b and a2 == b2 and a3 == b3 and same(a4, b4))
     return dict(id=tid, kind="dispatch", d=1, draws=1, minmax=False, identity_model=False, observable=False, ev=[], site=DSITE,
                 sig="tr=%s inv_tr=%s" % (trn, invn), tr=trn, inv=invn, outcome=outcome, r2_equal=r2_equal)
 
@@ -157,7 +176,7 @@ def run(ctx):
             frame = rng.random() < 0.5
             minmax = rng.random() < 0.7
             identity = rng.random() < 0.5
-            base = LinearRegression() if identity else rng.choice([ConstModel(), LinearRegression(fit_intercept=False)])
+            base = rng.choice([LinearRegression(), LinearRegression(), FirstFitModel()]) if identity else rng.choice([ConstModel(), LinearRegression(fit_intercept=False)])
             const_col = rng.randrange(d) if rng.random() < 0.3 else None
             collinear = rng.random() < 0.3
             seed = rng.randint(0, 10 ** 6)
